@@ -21,6 +21,7 @@ REQUIRED = [
     "DaeVerif.C19.Props.generated_files_match_spec",
     "DaeVerif.C19.Props.consts_agree",
     "DaeVerif.C19.Props.limits_agree",
+    "DaeVerif.C19.Props.key_models_follow_layout",
     "DaeVerif.C19.Props.tuples_key_bytes",
     "DaeVerif.C19.Props.tuples_key_size_and_padding",
     "DaeVerif.C19.Props.tuples_key_v4_forms_converge",
@@ -73,7 +74,7 @@ def diagnostics(ctx):
     ops = []
     for k in ("obl", "const", "limit", "map", "scalario", "mapcall"):
         ops += [f"{k} {i}" for i in range(int(c.get(k, 0)))]
-    ops += ["classify", "handles", "genfiles", "listencheck", "conncheck", "archreport", "wirereport"]
+    ops += ["classify", "handles", "genfiles", "listencheck", "conncheck", "keymodelcheck", "archreport", "wirereport"]
     ans = drv(ctx, ops, "c19diag") or []
     n = 0
     grouped = {}   # layout obligations that fail identically on several GOARCHes are one finding
